@@ -257,3 +257,63 @@ def mllp(job):
             invs.append(x)
     # a raising handler is logged, then the ERR handler (if any)
     return 'inv=%s reply=%s closed=%d' % (','.join(invs), vlib.hexs(out.decode('utf-8')) if out else '-', 1 if closed else 0)
+
+
+def canon_err(e):
+    """canonical form of a ValidationError message (same vocabulary as Hl7.Val.VErr.show)"""
+    import re
+    s = str(e)
+    def nm(r):
+        m = re.match(r'<\w+ ([^ >]*)', r)
+        return (m.group(1) or 'None') if m else r
+    m = re.match(r'Unknown element found: (.*?)\.<', s)
+    if m:
+        return 'unknown:' + nm(m.group(1))
+    m = re.match(r'Invalid element found: (.*)', s)
+    if m:
+        return 'invalid-element:' + nm(m.group(1))
+    m = re.match(r'Invalid children detected for (<.*?>): \[(.*)\]', s)
+    if m:
+        names = sorted(x.strip().strip("'\"") for x in m.group(2).split(',') if x.strip())
+        return 'invalid-children:%s:%s' % (nm(m.group(1)), ','.join(names))
+    m = re.match(r'Missing required child (.*)', s)
+    if m:
+        return 'missing:' + m.group(1)
+    m = re.match(r'Child limit exceeded (.*)', s)
+    if m:
+        return 'exceeded:' + m.group(1)
+    m = re.match(r'Datatype (\S+) is not correct for (\S+) \(it must be', s)
+    if m:
+        return 'datatype:%s:%s' % (m.group(1), m.group(2))
+    return 'other:' + s[:80]
+
+
+def valm(job):
+    """(text, strict, find_groups) -> parse_message(...).validate(return_errors=True): canonical error list"""
+    from hl7apy.parser import parse_message
+    t, strict, fg = job
+    try:
+        m = parse_message(t, validation_level=vlib.level(strict), find_groups=fg)
+    except Exception as e:  # noqa
+        return 'exc ' + vlib.exc_name(e)
+    try:
+        r = m.validate(return_errors=True)
+        return 'ok ' + '|'.join(canon_err(e) for e in r.errors)
+    except Exception as e:  # noqa
+        return 'valexc ' + vlib.exc_name(e)
+
+
+def vals(job):
+    """(version, text, strict, ec_chars) -> parse_segment(...).validate(return_errors=True)"""
+    from hl7apy.parser import parse_segment
+    v, t, strict, chars = job
+    ec = ec_dict(chars)
+    try:
+        s = parse_segment(t, version=v, encoding_chars=ec, validation_level=vlib.level(strict))
+    except Exception as e:  # noqa
+        return 'exc ' + vlib.exc_name(e)
+    try:
+        r = s.validate(return_errors=True)
+        return 'ok ' + '|'.join(canon_err(e) for e in r.errors)
+    except Exception as e:  # noqa
+        return 'valexc ' + vlib.exc_name(e)
